@@ -108,6 +108,8 @@ func (c checkSchema) checkNode(node ischema.Node, ss map[string]ischema.Type) {
 	case *ischema.MixedNode:
 		c.checkCompatibilityOfConstraints(node)
 		c.checkLinksOfNode(node, ss) // can panic
+		// (the rule-set of an `or` item may name a type in additionalProperties)
+		c.checkAdditionalPropertiesConstraint(node, ss)
 	case *ischema.MixedValueNode:
 		c.checkCompatibilityOfConstraints(node)
 		c.checkLinksOfNode(node, ss) // can panic
